@@ -533,7 +533,7 @@ class Models(object):
         if isinstance(sep, SStr) or sep is None or maxsplit != -1:
             raise Undecided("split with symbolic / default separator")
         if not self._barrier_ok(s, sep):
-            raise Undecided("split(%r): separator may occur inside a hole of %r" % (sep, s))
+            s = self._refine_for_split(s, sep)
         self.used("tmpl-split-barrier")
         pieces = [[]]
         for a in s.atoms:
@@ -545,6 +545,51 @@ class Models(object):
             else:
                 pieces[-1].append(a)
         return [mkstr(SStr(p)) for p in pieces]
+
+    def _refine_for_split(self, s, sep, budget=3):
+        """Fork with a refinement (DESIGN.md 2.4b): a hole that may contain the single-character
+        separator either does not contain it, or is v1 ++ sep ++ v2 with v1 free of sep."""
+        if len(sep) != 1:
+            raise Undecided("split(%r): separator may occur inside a hole of %r" % (sep, s))
+        ctx = self.ctx
+        for _ in range(budget + 1):
+            if self._barrier_ok(s, sep):
+                return s
+            atoms = list(s.atoms)
+            changed = False
+            for i, a in enumerate(atoms):
+                if isinstance(a, Val) and sep not in a.excl and _allowed_fn(a)(sep, "any"):
+                    self.used("tmpl-split-refinement-fork")
+                    if ctx.branch(z3.Contains(a.v, z3.StringVal(sep)), "hole-contains-%r" % sep):
+                        v1, v2 = ctx.fresh_str("pre"), ctx.fresh_str("post")
+                        ctx.assume(a.v == z3.Concat(v1, z3.StringVal(sep), v2))
+                        ctx.assume(z3.Not(z3.Contains(v1, z3.StringVal(sep))))
+                        n1 = Val(v1, excl=a.excl | {sep}, excl_first=a.excl_first, nonempty=False)
+                        n2 = Val(v2, excl=a.excl, excl_last=a.excl_last, nonempty=False)
+                        for c in n1.constraints() + n2.constraints():
+                            ctx.assume(c)
+                        atoms[i:i + 1] = [n1, Lit(sep), n2]
+                    else:
+                        atoms[i] = Val(a.v, excl=a.excl | {sep}, nonempty=a.nonempty, excl_first=a.excl_first, excl_last=a.excl_last, tag=a.tag)
+                    changed = True
+                    break
+            if not changed:
+                break
+            s = SStr(atoms)
+        if self._barrier_ok(s, sep):
+            return s
+        # budget exhausted: explore only strings with no further separator in the remaining holes
+        # (bounded on this dimension; the path is marked truncated and never counts as proved)
+        atoms = list(s.atoms)
+        for i, a in enumerate(atoms):
+            if isinstance(a, Val) and sep not in a.excl and _allowed_fn(a)(sep, "any"):
+                ctx.assume(z3.Not(z3.Contains(a.v, z3.StringVal(sep))))
+                atoms[i] = Val(a.v, excl=a.excl | {sep}, nonempty=a.nonempty, excl_first=a.excl_first, excl_last=a.excl_last, tag=a.tag)
+        ctx.truncated += 1
+        s = SStr(atoms)
+        if self._barrier_ok(s, sep):
+            return s
+        raise Undecided("split(%r): separator may occur inside a hole of %r" % (sep, s))
 
     def str_method(self, s, name, args, kwargs):
         """str method where self and/or arguments may be symbolic."""
